@@ -104,7 +104,9 @@ inline Case gen_case(Rng& r, bool thorough) {
     HB b = valid_hb(r, w, h, r.coin()); c.expect = 0; c.stratum = "hdr-rule1"; c.datalen = need(w, h);
     auto drop = [&](const std::string& key) { std::vector<std::string> k; for (auto& l : b.comments) { std::istringstream is(l); std::string a, bb; is >> a >> bb; if (!(a == "#" && bb == key)) k.push_back(l); } b.comments = k; };
     switch (r.irange(0, 13)) {
-    case 0: b.magic = r.pick(std::vector<std::string>{"P6\n", "P2\n", "p5\n", "P5x\n", "P5 \n", " P5\n", "P5\r\n", "\n", "P5", "\xef\xbb\xbfP5\n", "P4\n", "P55\n"}); break;
+    case 0: b.magic = r.pick(std::vector<std::string>{"P6\n", "P2\n", "p5\n", "P5x\n", "P5 \n", " P5\n", "P5\r\n", "\n", "P5", "\xef\xbb\xbfP5\n", "P4\n", "P55\n"});
+            if (b.magic == "P5") c.expect = 2;      // followed by an empty line this is a well-formed magic line again
+            break;
     case 1: drop("Offset"); break;
     case 2: drop("Scale"); break;
     case 3: drop("Scale"); b.comments.push_back("# Scale " + r.pick(std::vector<std::string>{"0", "-0", "0.0", "0e5", "1e-400", "-0.003", "-1e-320", "0x5"}) + "\n"); break;
